@@ -219,8 +219,8 @@ fn plan(flavor: Flavor, tier: Tier) -> Vec<Plan> {
                     let depth = match (tier, deep) {
                         (Tier::Quick, true) => 4,
                         (Tier::Quick, false) => 3,
-                        (Tier::Thorough, true) => 5,
-                        (Tier::Thorough, false) => 4,
+                        (Tier::Thorough, true) if factor == 0 => 5,
+                        (Tier::Thorough, _) => 4,
                     };
                     opts.push((
                         DbOpts {
@@ -249,8 +249,8 @@ fn plan(flavor: Flavor, tier: Tier) -> Vec<Plan> {
                     let depth = match (tier, deep) {
                         (Tier::Quick, true) => 5,
                         (Tier::Quick, false) => 4,
-                        (Tier::Thorough, true) => 7,
-                        (Tier::Thorough, false) => 6,
+                        (Tier::Thorough, true) => 6,
+                        (Tier::Thorough, false) => 5,
                     };
                     opts.push((
                         DbOpts {
@@ -717,7 +717,7 @@ fn check_catalogue(run: &mut Run) -> Option<(String, String)> {
             }
             other => {
                 return Some((
-                    "search_column_names:nocomplete".to_string(),
+                    format!("search_column_names:{}", if matches!(other, Outcome::Hang) { "hang" } else { "caller-panic" }),
                     format!("search_column_names({}): {}", t, other.describe()),
                 ))
             }
@@ -788,7 +788,7 @@ fn check_no_garbage(run: &mut Run) -> Option<(String, String)> {
             "wal_size:nonzero".into(),
             format!("accounted log size is {} after a completed flush", n),
         )),
-        other => Some(("wal_size:nocomplete".into(), other.describe())),
+        other => Some((format!("wal_size:{}", if matches!(other, Outcome::Hang) { "hang" } else { "caller-panic" }), other.describe())),
     }
 }
 
@@ -1045,7 +1045,7 @@ impl Engine for HistEngine {
                         if v.sig.contains("hang") {
                             // a stall of the machine must not look like a hang of the database:
                             // the same history has to hang again with three times the deadline
-                            std::env::set_var("LVMC_DEADLINE_MS", "12000");
+                            std::env::set_var("LVMC_DEADLINE_MS", "30000");
                             let again = run_history(&case, cf);
                             std::env::remove_var("LVMC_DEADLINE_MS");
                             if again.violation.as_ref().map(|a| &a.sig) != Some(&v.sig) {
